@@ -368,6 +368,16 @@ class _ShortReader:
         self.counter[0] += 1
         return self.fp.read(want if n is None or n < 0 else min(n, want))
 
+    read1 = read
+
+    def readinto(self, b):
+        # the same schedule for a copy loop written with a preallocated block
+        data = self.read(len(b))
+        memoryview(b).cast("B")[:len(data)] = data
+        return len(data)
+
+    readinto1 = readinto
+
     def __getattr__(self, name):
         return getattr(self.fp, name)
 
@@ -401,6 +411,7 @@ class Site:
         self.cctx.check_hostname = False
         self.cctx.verify_mode = ssl.CERT_NONE
         self.short_reads = [0]
+        self.overlaps = 0
 
     def use(self, hl):
         if self.current != hl:
@@ -427,6 +438,31 @@ class Site:
     def mock(self, hl, fam, method, sel):
         w = self.use(hl)
         r = w.request(wire(fam, method, sel), tls=fam in TLS)
+        crashed = r.escaped is not None or any("EXCEPTION" in ln for ln in r.log)
+        return r.out, crashed, r.log[-2:]
+
+    OTHER = "zz-other.bin"
+
+    def overlap(self, hl, fam, method, sel):
+        """Two transfers at once (MC_C04_overlap): inside every write() of this request, before the written object is
+        consumed, another handler serves a different file completely - what a thread switch inside sendall() amounts to."""
+        w = self.use(hl)
+        other = os.fsencode(os.path.join(self.root, self.OTHER))
+        if not os.path.exists(other):
+            with self.envsub.REAL["open"](other, "wb") as fp:
+                fp.write(bytes(range(1, 250)) * 53)             # 13 KB unlike any generated content
+        nested = [0]
+
+        def during():
+            saved = list(w.logbuf)
+            inner = w.request(wire("G", "GET", "/" + self.OTHER))
+            nested[0] += 1
+            if len(inner.out) != 249 * 53:
+                raise core.MachineryError("C04: the overlapping transfer itself was not served")
+            w.logbuf[:] = saved
+
+        r = w.request(wire(fam, method, sel), tls=fam in TLS, during=during)
+        self.overlaps += nested[0]
         crashed = r.escaped is not None or any("EXCEPTION" in ln for ln in r.log)
         return r.out, crashed, r.log[-2:]
 
@@ -500,7 +536,7 @@ def _init_worker_alt():
 
 
 def _events(site, hl, fam, sel, expected, rep, transport):
-    run = site.real if transport == "real" else site.mock
+    run = site.real if transport == "real" else (site.overlap if transport == "overlap" else site.mock)
     evs, extras = [], []
     for method in (["GET", "HEAD"] if PROTO[fam] in ("H", "W") else ["GET"]):
         out, crashed, log = run(hl, fam, method, sel)
@@ -706,6 +742,15 @@ def _main(chk, replay, t, rb, rb_bound, cachelib):
         for n, h in scheds:
             jobs.append(dict(n=real_size(n, 3, rb), kind="bin", name=t["names"][0], hl="default", rep=0, fams=["G", "GP"],
                              transports=["mock"], sched=h, dec=False))
+        # two transfers at once (MC_C04_overlap): every size class of the loop model, another transfer inside every write
+        res_ov = tlc.check_model("MC_C04_overlap", "MC_C04_overlap.cfg", dump=False, coverage=False, timeout=300)
+        if res_ov["inv_violations"]:
+            chk.model_violation("MC_C04_overlap", sorted(set(res_ov["inv_violations"])), res_ov["out"][-2000:])
+        _CTX["overlap_states"] = res_ov["distinct"]
+        tlc.cleanup(res_ov)
+        for n in sorted({n_ for n_, _h in scheds}):
+            jobs.append(dict(n=real_size(n, 3, rb), kind="bin", name=t["names"][0], hl="default", rep=0, fams=["G", "GP", "H"],
+                             transports=["overlap"], sched=[], dec=False))
     _CTX.update(rows=rows, altrows=altrows, altmime=altmime, rb=rb, decs=decs)
     hjobs = [dict(name=nm, prev=pv, via=via, n=n_, fams=sorted(set(fams_)), hl="default")
              for (nm, pv, via, n_), fams_ in sorted(hists.items())]
@@ -722,7 +767,9 @@ def _main(chk, replay, t, rb, rb_bound, cachelib):
     traces = [tr for trs, _n in results for tr in trs]
     short_reads = sum(n_ for _trs, n_ in results)
     if not replay and scheds and short_reads == 0:
-        raise core.MachineryError("C04: the substituted open() never served a read: schedules not imposed")
+        # a copy loop that no longer goes through read()/readinto() of the opened file (sendfile, mmap): the schedules of
+        # the loop model cannot be imposed; design-level difference, the byte comparison of every case still applies
+        chk.note_drift([{"what": "C04: the substituted open() never served a read: read-size schedules not imposed"}])
     # 3. TLC judges
     tv = tlc.validate_traces("TraceC04", "TraceC04.cfg", [{"id": x["id"], "init": x["init"], "events": x["events"]} for x in traces],
                              timeout=3000)
@@ -748,7 +795,8 @@ def _main(chk, replay, t, rb, rb_bound, cachelib):
         raise core.MachineryError("C04: no document was delivered at all")
     wml = sum(1 for e in fetches if e["wmlframe"])
     cov = {
-        "states": res["distinct"] + res2["distinct"] + res3["distinct"],
+        "states": res["distinct"] + res2["distinct"] + res3["distinct"] + _CTX.get("overlap_states", 0),
+        "overlapping_transfers_replayed": sum(1 for tr in traces if tr["case"].get("transport") == "overlap"),
         "transitions": res["generated"] + res2["generated"] + res3["generated"], "exhaustive": True,
         "traces_validated_against_impl": tv["accepted"], "traces_rejected": len(tv["rejected"]),
         "evaluations": len(fetches), "distinct_nontrivial": nontrivial,
